@@ -257,6 +257,10 @@ ABTU_ret_err static inline int ABTI_ktable_set(ABTI_global *p_global,
                     ABTD_atomic_pause();
                     p_ktable = ABTD_atomic_acquire_load_ptr(pp_ktable);
                 }
+                if (p_ktable == NULL) {
+                    /* The other one failed to allocate it.  Try once more. */
+                    continue;
+                }
                 /* p_ktable has been allocated by another. */
                 break;
             }
